@@ -19,6 +19,89 @@ from .. import cfg as cfgmod
 CONSTRUCTORS = ('new', 'open', 'open_fp')
 
 
+def canon_text(ctx, qual, text):
+    """Statement text made insensitive to the names of the function's locals and to module-level constants:
+    locals/parameters become v0, v1, ... in order of appearance, a Name bound to a module-level str/int
+    constant becomes the literal.  (Keys of findings survive renamings and `MSG = '...'` extractions.)"""
+    fi = ctx.m.functions.get(qual)
+    if fi is None:
+        return text
+    prefix = ''
+    body = text
+    for pre in ('if ', 'while ', 'with ', 'for '):
+        if text.startswith(pre):
+            prefix, body = pre, text[len(pre):]
+    try:
+        if prefix == 'for ':
+            tree = ast.parse('for %s: pass' % body).body[0]
+            tree = ast.Tuple(elts=[tree.target, tree.iter], ctx=ast.Load())
+        else:
+            tree = ast.parse(body).body[0]
+    except SyntaxError:
+        return text
+    locs = set(p.lstrip('*') for p in fi.params)
+    for n in ctx.own_nodes(fi):
+        if isinstance(n, ast.Name) and isinstance(n.ctx, (ast.Store, ast.Del)):
+            locs.add(n.id)
+    locs.discard('self')
+    mi = ctx.m.modules[fi.module]
+    mapping = {}
+
+    class T(ast.NodeTransformer):
+        def visit_Name(self, n):
+            if n.id in locs:
+                if n.id not in mapping:
+                    mapping[n.id] = 'v%d' % len(mapping)
+                return ast.copy_location(ast.Name(id=mapping[n.id], ctx=n.ctx), n)
+            c = mi.consts.get(n.id) if hasattr(mi, 'consts') and mi.consts else None
+            if isinstance(c, ast.Constant) and isinstance(c.value, (str, int, bytes)):
+                return ast.copy_location(ast.Constant(value=c.value), n)
+            return n
+
+        def visit_keyword(self, n):
+            self.generic_visit(n)
+            return n
+    tree = T().visit(tree)
+    ast.fix_missing_locations(tree)
+    try:
+        out = ast.unparse(tree)
+    except Exception:
+        return text
+    if prefix == 'for ':
+        return 'for ' + out
+    return prefix + out
+
+
+def canon_key(ctx, qual, text):
+    """canon_text plus, when several statements of the function have the same canonical text (the ISO9660 / Joliet /
+    UDF variants of one step differ only in the variable they act on), the ordinal of this one among them in source
+    order: `v0 += self._add_child_to_dr(v1)#1`."""
+    from ..model import stmt_head
+    fi = ctx.m.functions.get(qual)
+    ct = canon_text(ctx, qual, text)
+    if fi is None:
+        return ct
+    cache = getattr(ctx, '_canon_stmts', None)
+    if cache is None:
+        cache = ctx._canon_stmts = {}
+    if qual not in cache:
+        lst = []
+        for n in ctx.own_nodes(fi):
+            if isinstance(n, ast.stmt) and not isinstance(n, (ast.FunctionDef, ast.ClassDef)):
+                raw = stmt_head(n)[:240]
+                lst.append((n.lineno, n.col_offset, raw, canon_text(ctx, qual, raw)))
+        lst.sort()
+        cache[qual] = lst
+    same = [raw for (_l, _c, raw, c) in cache[qual] if c == ct]
+    distinct = []
+    for r in same:
+        if r not in distinct:
+            distinct.append(r)
+    if len(distinct) > 1 and text in distinct:
+        return '%s#%d' % (ct, distinct.index(text))
+    return ct
+
+
 def public_mutators(ctx, engine):
     pc = ctx.cls('pycdlib.PyCdlib')
     out = []
@@ -59,7 +142,7 @@ def vbmrule(ctx):
             if not roots:
                 continue
             org = origin or (fi.qual, '?', '?')
-            k = (org[0], org[2])
+            k = (org[0], canon_key(ctx, org[0], org[2]))
             d = findings.setdefault(k, {'methods': set(), 'first': set(), 'raises': set()})
             d['methods'].add(fi.name)
             d['first'].add(org[1])
